@@ -11,6 +11,7 @@ import (
 	"strings"
 	"testing"
 	"testing/synctest"
+	"time"
 
 	"pgregory.net/rapid"
 
@@ -23,26 +24,52 @@ func TestMain(m *testing.M) {
 	os.Exit(rc)
 }
 
+// hangTimeout is a real-time safety net, not part of any verdict on a
+// passing case (those take well under a millisecond): synctest.Wait only
+// returns once every goroutine of the bubble is blocked on a channel, so a
+// goroutine of /repo that spins, or blocks on a sync.Mutex that a panicking
+// call left locked, would otherwise wedge the test binary.
+const hangTimeout = 10 * time.Second
+
 // runInBubble executes one program inside a fresh synctest bubble. A bubble
 // whose goroutines are all blocked makes synctest.Test panic on the calling
 // goroutine; that is turned into a field of the run (the controller has
 // normally already listed who is stuck), so a deadlocking case can neither
 // hang nor kill the test binary. Goroutines stuck inside /repo stay parked
-// in their dead bubble; that only happens in failing cases.
-func runInBubble(outer *testing.T, r *run) {
-	defer func() {
-		if v := recover(); v != nil {
-			msg := fmt.Sprint(v)
-			if !strings.Contains(msg, "deadlock") {
-				panic(v)
+// in their dead bubble; that only happens in failing cases. Returns false
+// if the bubble did not come to rest within hangTimeout.
+func runInBubble(outer *testing.T, r *run) bool {
+	done := make(chan struct{})
+	var fatal interface{}
+	go func() {
+		defer close(done)
+		defer func() {
+			if v := recover(); v != nil {
+				msg := fmt.Sprint(v)
+				if !strings.Contains(msg, "deadlock") {
+					fatal = v
+					return
+				}
+				r.bubbleDeadlock = msg
 			}
-			r.bubbleDeadlock = msg
-		}
+		}()
+		synctest.Test(outer, func(*testing.T) { r.drive() })
 	}()
-	synctest.Test(outer, func(*testing.T) { r.drive() })
+	timer := time.NewTimer(hangTimeout)
+	defer timer.Stop()
+	select {
+	case <-done:
+		if fatal != nil {
+			panic(fatal)
+		}
+		return true
+	case <-timer.C:
+		return false
+	}
 }
 
 func property(outer *testing.T, rec *vstats.Recorder, freeRun bool) func(*rapid.T) {
+	readAtEOFListed := vstats.KnownListed("C15", keyReadAtEOF)
 	return func(t *rapid.T) {
 		c := rec.Begin()
 		p := genProgram(t)
@@ -50,9 +77,16 @@ func property(outer *testing.T, rec *vstats.Recorder, freeRun bool) func(*rapid.
 		c.Add(rendered)
 
 		r := newRun(p, freeRun)
-		runInBubble(outer, r)
+		r.knownReadAtEOF = readAtEOFListed
+		if !runInBubble(outer, r) {
+			t.Fatalf("%s\n  %s", r.hangVerdict(), rendered)
+		}
 		if v := r.judge(); v != "" {
 			t.Fatalf("%s\n  %s", v, rendered)
+		}
+		for _, k := range r.excluded {
+			rec.Excluded(k)
+			rec.KnownFinding(k, "property=C15 key="+k+" ReadAt on a buffer with a failing task returned io.EOF instead of the task's error: "+rendered)
 		}
 
 		// Statistics.
